@@ -378,7 +378,7 @@ def check_case(case, acc):
 
 
 def units(tier, seed):
-    n, per = (1440, 20) if tier == "quick" else (48000, 150)
+    n, per = (1440, 20) if tier == "quick" else (18000, 150)
     us = []
     for i in range(n // per):
         us.append({"seed": seed * 7919 + i, "n": per, "cls": "IH5Record" if i % 2 == 0 else "IH5MFRecord"})
